@@ -15,3 +15,9 @@ func ZZNewRecoverFile(cached sts.Cached, prev string, left []*sts.ByteRange) sts
 func ZZNewBinnable(s sts.Sendable, tag string, noPrev bool) sts.Binnable {
 	return &binnable{Sendable: s, tag: tag, noPrev: noPrev}
 }
+
+// ZZRecover runs the sender's start-up recovery (partials request, comparison with
+// the cache, recovery poll) and returns what it would queue.
+func ZZRecover(b *Broker) ([]sts.Hashed, error) {
+	return b.recover()
+}
